@@ -111,7 +111,7 @@ manifest = {
     ],
     "checks": checks,
     "not_applicable": not_app,
-    "notes": "Exit codes: 0 held, 1 violation (VIOLATION line), >=2 machinery failure. Known findings: /verif/KNOWN_FINDINGS.txt (currently only fixed: lines - nine repaired defects). Seeded detection demonstrations: /verif/seeded/ (141 property-breaking changes); false-alarm probes: /verif/refactorings/ (16 behaviour-preserving refactorings).",
+    "notes": "Exit codes: 0 held, 1 violation (VIOLATION line), >=2 machinery failure. Known findings: /verif/KNOWN_FINDINGS.txt (currently only fixed: lines - nine repaired defects). Seeded detection demonstrations: /verif/seeded/ (177 property-breaking changes); false-alarm probes: /verif/refactorings/ (16 behaviour-preserving refactorings).",
 }
 json.dump(manifest, open(os.path.join(V, "MANIFEST.json"), "w"), indent=1)
 print("wrote MANIFEST.json with", len(checks), "checks;", len(not_app), "not yet claimed")
